@@ -214,6 +214,8 @@ def lookup(obj, path):
     cur = obj
     for part in re.findall(r"[^.\[\]]+|\[\d+\]", path):
         if part.startswith("["):
+            if not isinstance(cur, (list, tuple)) or int(part[1:-1]) >= len(cur):
+                return None      # the decoded object has fewer elements than the one that was serialised
             cur = cur[int(part[1:-1])]
         elif isinstance(cur, AObj):
             if part not in cur.attrs:
